@@ -20,14 +20,15 @@
      pkg/p2p/libp2p/libp2p.go             handleConnectReq / Connect (failure counters), Connect (underlay bytes) *)
 From Coq Require Import String List NArith ZArith Bool.
 From MevVerif Require Import lib.Bytes gen.Generated.
+From MevVerif Require model.Signer.
 Import ListNotations.
 Open Scope N_scope.
 
 Record fixes := { f_siglen : bool; f_nilbid : bool; f_metrics : bool }.
 
 (* libp2p.New (regenerated from the source on every run: every value given to the variable
-   [metrics], in order).  The counters exist for every Service iff the first value -- the one in
-   force when Options.MetricsReg is nil -- is built by newMetrics(...). *)
+   [metrics], in order).  The counters exist for every Service iff every value (the first one is
+   in force when Options.MetricsReg is nil) is built by newMetrics(...). *)
 Fixpoint has_prefix (p l : bytes) : bool :=
   match p, l with
   | [], _ => true
@@ -36,8 +37,8 @@ Fixpoint has_prefix (p l : bytes) : bool :=
   end.
 Definition metrics_always_created : bool :=
   match c06_metrics_assigns with
-  | first :: _ => has_prefix (bos "newMetrics(") first
   | [] => false
+  | vals => forallb (has_prefix (bos "newMetrics(")) vals     (* every value ever given to it *)
   end.
 
 Definition fixes_now : fixes := {| f_siglen := true; f_nilbid := true; f_metrics := metrics_always_created |}.
@@ -96,6 +97,25 @@ Definition verify_preconf_in (f : fixes) (c : preconf_in) : vout :=
           end
       end
   | _, _ => VErr
+  end.
+
+(* ---- pkg/signer/signer.go: Verify(signature, message) -- the handshake's signature check ------------
+     messageHash := Keccak256Hash(message)
+     pub, err := crypto.SigToPub(messageHash, signature); if err != nil { return false, {}, err }
+     addr := PubkeyToAddress of the key pointed to    // pub is non-nil when err == nil
+     verified := crypto.VerifySignature(FromECDSAPub(pub), messageHash, signature[:len(signature)-1])
+   The one panic-prone operation is the slice expression: for an empty signature its upper bound is -1.
+   It is only reached when SigToPub accepted the signature. *)
+Definition signer_verify (K : bytes -> bytes) (cr : Signer.crypto) (sig msg : bytes) : outcome (bool * bytes) :=
+  let h := K msg in
+  match Signer.recover cr h sig with
+  | Panic => Panic
+  | Err _ => Err 1
+  | Ok pub =>
+      match sig with
+      | [] => Panic                                        (* signature[:-1] *)
+      | _ => Ok (Signer.verify_rs cr pub h (removelast sig), Signer.addr_of cr pub)
+      end
   end.
 
 (* ---- handshake -------------------------------------------------------------------------------------- *)
